@@ -585,13 +585,36 @@ fn fresh(size: usize, be: bool, rng: &mut Rng, annotate: bool) -> (BinArchive, R
             m.labels.entry(rng.range(0, size)).or_default().push(gen_ident(rng, 4));
         }
     }
-    let a = archive::build_real_plain(&m).expect("build");
+    let a = match archive::build_real_plain(&m) {
+        Ok(a) => a,
+        Err(e) => {
+            // every call of the build is in range (strings / pointers on whole cells, labels at
+            // addresses <= size): a rejection is a wrong_reject of C04, reported by the caller
+            BUILD_ERR.with(|b| *b.borrow_mut() = Some(format!("building a {}-byte archive through in-range calls failed: {}; content={}", size, e, m.describe())));
+            let mut plain = RefArchive::new(be);
+            plain.data = m.data.clone();
+            m = plain;
+            archive::build_real_plain(&m).expect("plain build")
+        }
+    };
     (a, m)
+}
+
+thread_local! {
+    static BUILD_ERR: std::cell::RefCell<Option<String>> = std::cell::RefCell::new(None);
+}
+
+/// report (once per occurrence) a rejected in-range build call recorded by `fresh`
+fn report_build_err(c: &mut Case) {
+    if let Some(e) = BUILD_ERR.with(|b| b.borrow_mut().take()) {
+        c.fail("bounds", "wrong_reject:build", e);
+    }
 }
 
 fn grid_case(c: &mut Case, size: usize, be: bool) {
     let mut rng = Rng::new(size as u64 * 2 + be as u64); // seed-independent: this part is exhaustive
     let (mut real, mut model) = fresh(size, be, &mut rng, true);
+    report_build_err(c);
     let mut addrs: Vec<usize> = if cfg!(miri) {
         let mut a = vec![0, 1, size.saturating_sub(1), size, size + 1, size + 4];
         a.sort();
@@ -758,6 +781,7 @@ pub fn run(cx: &mut Ctx) {
         for be in [false, true] {
             let mut rng = Rng::new(7);
             let (mut real, mut model) = fresh(8, be, &mut rng, false);
+            report_build_err(c);
             exec(c, &mut real, &mut model, &Op::WriteBytes(6, vec![1, 2, 3, 4]), true);
             exec(c, &mut real, &mut model, &Op::WriteBytes(6, vec![1, 2, 3, 4]), false);
             exec(c, &mut real, &mut model, &Op::WriteBytes(6, vec![9, 8]), true);
@@ -768,6 +792,7 @@ pub fn run(cx: &mut Ctx) {
         for be in [false, true] {
             let mut rng = Rng::new(9);
             let (mut real, mut model) = fresh(8, be, &mut rng, false);
+            report_build_err(c);
             for a in [0usize, 1, 4, 7] {
                 for n in [usize::MAX, usize::MAX - 1, usize::MAX - 7, (isize::MAX as usize) + 1] {
                     exec(c, &mut real, &mut model, &Op::ReadBytes(a, n), false);
@@ -789,6 +814,7 @@ pub fn run(cx: &mut Ctx) {
             };
             let be = rng.bool();
             let (mut real, mut model) = fresh(size, be, &mut rng, true);
+            report_build_err(c);
             let len = if cfg!(miri) { rng.range(5, 20) } else { rng.range(10, 80) };
             let mut hist = Vec::new();
             for _ in 0..len {
